@@ -52,12 +52,15 @@ def oracle_actions(c: Case, tr: Trace) -> Optional[str]:
                 elif nd.kind == 'action':
                     cfam = nd.params[0]
             has = spec is not None and spec.kind != 'none' and bodyA == '1'
+            if spec is not None and spec.wrap.startswith('cas:'):
+                # change_action_and_state(s): re-enters through the control with the new family (and a new state object)
+                cA, has, cfam = p[2], False, int(spec.wrap.split(':')[1])
             if spec is not None and spec.wrap.startswith('ca:'):
                 # change_action re-enters Control< Rule >::match with the new family: the same rule again, same mode; the old
                 # family's apply is not used
                 cA, has, cfam = p[2], False, int(spec.wrap[3:])
             stack.append({'id': nid, 'pos': p[4:7], 'n': 0, 'has': has, 'bool': bool(spec and spec.is_bool), 'cA': cA, 'cfam': cfam,
-                          'reenter': bool(spec is not None and spec.wrap.startswith('ca:'))})
+                          'reenter': bool(spec is not None and (spec.wrap.startswith('ca:') or spec.wrap.startswith('cas:')))})
         elif t in ('ap', 'a0'):
             if not stack or stack[-1]['id'] != int(p[1]):
                 return f"action event '{l}' outside the invocation of its rule"
